@@ -11,7 +11,7 @@ for d in seeded/*/; do
   prop=$(python3 -c "import json;print(json.load(open('$d/meta.json'))['property'])")
   exp=VIOLATION; case $id in neg-*) exp=OK;; esac
   res=$(tools/try_seed.sh $prop /verif/$d/patch.diff)
-  rules=$(echo "$res" | grep -o "rule=R[0-9.]*" | sort -u | tr '\n' ' ')
+  rules=$(echo "$res" | grep "^FINDING" | grep -o "rule=R[0-9.]*" | sort -u | tr '\n' ' ')
   verdict=$(echo "$res" | grep -q "^VIOLATION" && echo VIOLATION || (echo "$res" | grep -q "^OK" && echo OK || echo ERROR))
   echo "| $id | $prop | $exp | $verdict | $rules |" >> $out
   echo "$id $prop expected=$exp got=$verdict $rules"
